@@ -17,7 +17,7 @@ import re
 
 from hypothesis import strategies as st
 
-from vlib import tools
+from vlib import patient, tools
 from vlib.core import Check, Discard, Inconclusive, OracleSplit, Violation
 from vlib import elf as E
 from vlib.elf import Elf
@@ -327,13 +327,13 @@ class C30(Check):
             o = f"t{tu['i']}.o"
             pic = ["-fPIC"] if (tu["where"] == "so" or mode in ("pie", "static-pie")) else ["-fno-pic"]
             if tu["kind"] == "asm":
-                tools.asm(asm_source(tu), o, cwd=d)
+                patient.asm(asm_source(tu), o, cwd=d)
             else:
                 comp = "gcc" if tu["kind"] == "gcc" else "clang"
                 flags = ["-O1", "-w", *pic]
                 if tu["kind"] == "clang-ctors":
                     flags.append("-fno-use-init-array")
-                tools.cc(c_source(tu), o, flags=flags, cwd=d, compiler=comp)
+                patient.cc(c_source(tu), o, flags=flags, cwd=d, compiler=comp)
             objs[tu["i"]] = o
         main = ["long write(int, const void *, unsigned long);"]
         calls = []
@@ -342,11 +342,11 @@ class C30(Check):
                 main.append(f"void anchor{tu['i']}(void);")
                 calls.append(f"anchor{tu['i']}();")
         main.append("int main(void) { write(1, \"main\\n\", 5); " + " ".join(calls) + " return 0; }")
-        tools.cc("\n".join(main) + "\n", "main.o", flags=["-O1", "-fPIC" if mode in ("pie", "static-pie") else "-fno-pic"], cwd=d)
+        patient.cc("\n".join(main) + "\n", "main.o", flags=["-O1", "-fPIC" if mode in ("pie", "static-pie") else "-fno-pic"], cwd=d)
         for a in ("ar0", "ar1"):
             mem = [objs[tu["i"]] for tu in tus if tu["where"] == a]
             if mem:
-                tools.ar(f"lib{a}.a", mem, cwd=d)
+                patient.ar(f"lib{a}.a", mem, cwd=d)
         so_members = [objs[tu["i"]] for tu in tus if tu["where"] == "so"]
 
         res = {}
@@ -355,7 +355,7 @@ class C30(Check):
             os.mkdir(sub)
             gc = ["-Wl,--gc-sections"] if case["gc"] else []
             if so_members:
-                r = tools.cc_link(linker, ["-shared", "-o", f"{linker}/libso.so", *so_members, *gc], cwd=d)
+                r = patient.cc_link(linker, ["-shared", "-o", f"{linker}/libso.so", *so_members, *gc], cwd=d)
                 self._link_ok(linker, r, "shared library")
             args = {"nopie": ["-no-pie"], "pie": ["-pie"], "static": ["-static"], "static-pie": ["-static-pie"]}[mode]
             args = [*args, "-o", f"{linker}/exe", "main.o", *gc]
@@ -373,9 +373,9 @@ class C30(Check):
                 elif w == "so" and "so" not in seen:
                     seen.add("so")
                     args.append(f"{linker}/libso.so")
-            r = tools.cc_link(linker, args, cwd=d)
+            r = patient.cc_link(linker, args, cwd=d)
             self._link_ok(linker, r, "executable")
-            run = tools.run_exe(f"{sub}/exe", cwd=d, env={"LD_LIBRARY_PATH": sub})
+            run = patient.run_exe(f"{sub}/exe", cwd=d, env={"LD_LIBRARY_PATH": sub})
             statics = {"exe": array_words(Elf(f"{sub}/exe"))}
             if so_members:
                 statics["so"] = array_words(Elf(f"{sub}/libso.so"))
